@@ -118,7 +118,9 @@ def table():
         m = json.load(open(os.path.join(OUT, sid, "meta.json")))
         c = m.get("confirmed_by_me", {})
         ok = "%s / %s" % ("yes" if c.get("repository_tests_pass_with_change") else "NO", "yes" if c.get("demo_exit_code_with_change") not in (0, None) and c.get("demo_exit_code_without_change") == 0 else "NO")
-        det = ", ".join(m.get("detected_by") or []) or ("(superseded) " + ", ".join(m.get("detected_on_its_base") or []) if m.get("detected_on_its_base") else "**missed**")
+        note = (m.get("notes") or "").split(":")[0]
+        det = ", ".join(m.get("detected_by") or []) or ("(superseded) " + ", ".join(m.get("detected_on_its_base") or []) if m.get("detected_on_its_base")
+                                                         else "(%s, see meta.json)" % note if note in ("superseded", "not judged") else "**missed**")
         others = [k for k, v in m.get("checks_run", {}).items() if v["exit"] == 0]
         if others and m.get("detected_by"):
             det += " (not by %s)" % ", ".join(others)
